@@ -97,12 +97,26 @@ CLAIMED = {
         technique="contract-based symbolic execution of the real code over bounded structures (bounded stand-in), obligations discharged by z3",
         design="3/C08",
     ),
+    "C12": dict(
+        category="proof",
+        text="Relational (two-run) contracts, all batch sizes symbolic: the real function is executed on batch A and on batch B where sample b of B is sample a of A and all other samples of B (and the batch size) are arbitrary; proved: find_global_peaks_rough / find_global_peaks, SingleInstanceInferenceModel.forward and FindInstancePeaks.forward (both stride variants) report for that sample exactly the same points, values (and crop bounding box), and each run's output carries the frame_idx / video_idx (/centroid) tensors of its own batch unchanged. For find_local_peaks_rough / find_local_peaks the per-sample functional characterisation is proved instead: the rows are exactly the strict local maxima above threshold, each once, in increasing (sample,row,column,channel) order with their own sample/channel index -- so a sample's rows are a function of that sample's maps alone and empty samples contribute no rows without shifting the others.",
+        note="ASSUMED: the network maps each sample independently of its batch-mates in eval mode (ghost TableNet); torch.max/argmax return the first maximal index (torch documentation). Not decided: CentroidCrop.forward (per-sample split, top-k for max_instances, NaN padding, skipped empty samples), BottomUpInferenceModel / PAFScorer batch glue, _predict_generator metadata alignment, relational form of integral refinement.",
+        technique="contract-based deductive verification: relational two-run symbolic execution of the real Python source, VCs discharged by z3 (cvc5 for unknowns)",
+        design="3/C12",
+    ),
+    "C18": dict(
+        category="proof",
+        text="PARTIAL CLAIM -- only the second sentence of the property ('each legacy DataPipe block returns what its functional counterpart returns'). Relational contracts, all shapes and values symbolic: the real block class is instantiated on a one-example source and its real __iter__ is executed, the functional counterpart is executed on the same example, and the keys the block writes are proved equal to the function's result (and the other keys passed through) for Normalizer (float / uint8 input, gray / rgb, 1 / 3 channels) vs apply_normalization + convert_to_grayscale/rgb, Resizer vs apply_resizer, PadToStride vs apply_pad_to_stride, InstanceCentroidFinder vs generate_centroids, InstanceCropper vs generate_crops (one crop per frame), ConfidenceMapGenerator vs generate_confmaps, MultiConfidenceMapGenerator (centroid and instance modes, all slots real) vs generate_multiconfmaps. The functional generators themselves are pinned to their closed forms under C01/C04/C05/C11.",
+        note="NOT decided (no claim): agreement of the in-memory dataset, the .npz-chunk-cached dataset and the chunk-generation + streaming path (custom_datasets / get_data_chunks / streaming_datasets need sleap_io, PIL, litdata and kornia object models; custom_datasets does not import in this environment); PartAffinityFieldsGenerator vs generate_pafs (both reach the sum-over-animals loop through a contract that introduces a fresh abstract fold per call; solvers return unknown on the equality); InstanceCropper with several real instances (the block re-yields one mutated dict). Trusted: torchvision resize is a function of (tensor, size); rgb_to_grayscale weights from the torchvision documentation.",
+        technique="contract-based deductive verification: relational symbolic execution of the real block class and the real function, VCs discharged by z3 (cvc5 for unknowns)",
+        design="3/C18",
+    ),
 }
 
 NOT_APPLICABLE = {
     "C19": "no pre/postcondition on a function of this repository expresses it: training completion, artifacts and crash-point file contents live in Lightning/wandb/OmegaConf and the file system (DESIGN.md section 5)",
 }
-NOT_BUILT = ["C03", "C10", "C12", "C14", "C16", "C18"]
+NOT_BUILT = ["C03", "C10", "C14", "C16"]
 
 
 def main():
